@@ -16,9 +16,10 @@ def adts_in_type(fx, ti, acc=None):
             adts_in_type(fx, a, acc)
     elif k in ("ref", "ptr", "array", "slice"):
         adts_in_type(fx, t["t"], acc)
-    elif k in ("tuple", "fnptr", "closure"):
+    elif k in ("tuple", "closure"):
         for a in t["a"]:
             adts_in_type(fx, a, acc)
+    # a function pointer holds no data of its argument types: do not descend into "fnptr"
     return acc
 
 
